@@ -288,6 +288,26 @@ def n_cases(tier, q, t):
            ["futures oneshot/mpsc semantics as written in Model/Client.v", "eager scheduling (DESIGN 4.1)"])
 def c05(tier, rng):
     out = []
+    for codes in ([1, 135], [0, 1, 2], [128, 0, 151, 2]):
+        st = S()
+        a = st.start("sub", " ".join("f=%s:2000" % hx(b"f%d" % k) for k in range(len(codes))))
+        b = st.sub(b"other")
+        st.poll(a), st.poll(b)
+        st.deliver(M.suback(2, [2], [(38, (b"k", b"longer value")), (31, b"why")])), st.deliver(M.suback(1, codes, [(38, (b"a longer name", b"v"))]))
+        st.poll(a), st.poll(b)
+        out.append(case("suback-codes-%d" % len(codes), st.script(), ["suback-codes"]))
+    for ups in ([(38, (b"n", b"value"))], [(38, (b"name", b"v")), (31, b"reason")], [(31, b"r"), (38, (b"longer-name", b"")), (38, (b"", b"x"))]):
+        st = S()
+        a, b, c_, d = st.pub(q=1), st.unsub(b"u"), st.pub(q=2), st.ping()
+        for i_ in (a, b, c_, d):
+            st.poll(i_)
+        st.deliver(M.puback(1, 135, ups)), st.deliver(M.unsuback(2, [17], ups)), st.deliver(M.pubrec(3, 0, ups, "long"))
+        for i_ in (a, b, c_, d):
+            st.poll(i_)
+        st.deliver(M.pubcomp(3, 146, ups, "long")), st.deliver(M.pingresp())
+        for i_ in (a, b, c_, d):
+            st.poll(i_)
+        out.append(case("ack-user-properties-%d" % len(ups), st.script(), ["ack-up"]))
     # identifiers of 256 and beyond (both identifier bytes in use) through complete exchanges of every kind
     for first in (254, 255, 256, 300, 65533):
         st = S()
@@ -379,6 +399,25 @@ def c05(tier, rng):
            "then random walks restricted to publishes with interleaved other operations.")
 def c06(tier, rng):
     out = []
+    for q in (1, 2):
+        for n_ in (119, 120, 200):
+            st = S()
+            i1 = st.pub(q=q, topic=b"t/x", payload=b"payload", extra="cd=%s" % hx(b"c" * n_))
+            st.poll(i1), st.poll(i1)
+            if q == 1:
+                st.deliver(M.puback(1)), st.poll(i1)
+            else:
+                st.deliver(M.pubrec(1)), st.poll(i1), st.deliver(M.pubcomp(1)), st.poll(i1)
+            nx = st.pub(q=1, payload=b"next")
+            st.poll(nx), st.deliver(M.puback(st.ops[nx]["pid"])), st.poll(nx)
+            out.append(case("big-props-q%d-%d" % (q, n_), st.script(), ["big-props"]))
+        for order in ("t rt", "rt t"):
+            st = S()
+            args = {"t": "t=%s" % hx(b"services/set"), "rt": "rt=%s" % hx(b"clients/replies")}
+            i1 = st.start("pub", "q=%d %s pl=%s" % (q, " ".join(args[k] for k in order.split()), hx(b"p")), q)
+            st.poll(i1), st.poll(i1)
+            st.deliver(M.puback(1) if q == 1 else M.pubrec(1)), st.poll(i1)
+            out.append(case("option-order-q%d-%s" % (q, order.replace(" ", "-")), st.script(), ["option-order"]))
     # topics and strings outside ASCII (length prefixes count bytes, not characters), through the complete handshakes
     for topic in ("m\u00e9t\u00e9o/temp\u00e9rature", "\u6e29\u5ea6/\u5ba4\u5185", "a/\U0001f321/b"):
         tb = topic.encode("utf-8")
@@ -472,6 +511,36 @@ def k1_case():
            "identifiers, dropped and lagging streams, unsubscribe; then random walks with streams.")
 def c07(tier, rng):
     out = [k1_case()]
+    for dropped in (0, 1, 2):
+        st = S()
+        subs_ = [st.sub(b"s%d" % k) for k in range(4)]
+        for i_ in subs_:
+            st.poll(i_)
+        for k in range(4):
+            st.deliver(M.suback(k + 1))
+        for i_ in subs_:
+            st.poll(i_), st.ev("tostream %d" % i_)
+        st.ev("dropstream %d" % subs_[dropped])
+        st.deliver(M.publish(b"x", b"to-dropped", 0, None, ps=[(11, dropped + 1)]))
+        for rnd in range(2):
+            for k in (2, 3, 0, 1):
+                st.deliver(M.publish(b"x", b"r%d-s%d" % (rnd, k), 1, 20 + 4 * rnd + k, ps=[(11, k + 1)]))
+        for i_ in subs_:
+            if i_ != subs_[dropped]:
+                for _ in range(3):
+                    st.ev("pollstream %d" % i_)
+        out.append(case("prune-%d" % dropped, st.script(), ["prune"]))
+    if True:
+        N_ = 66000 if tier == "quick" else 140000
+        st = S()
+        a_ = st.sub(b"a")
+        st.poll(a_), st.deliver(M.suback(1)), st.poll(a_), st.ev("tostream %d" % a_)
+        st.ev("flood %d %s" % (N_, hx(M.publish(b"a", b"m", 0, None, ps=[(11, 1)]))))
+        st.ev("drain %d %d" % (a_, N_))
+        st.deliver(M.publish(b"a", b"fresh", 0, None, ps=[(11, 1)])), st.ev("pollstream %d" % a_), st.ev("pollstream %d" % a_)
+        c_ = case("very-late-consumer", st.script(), ["backlog"], release=False)
+        c_["model"] = False
+        out.append(c_)
     for cut in (1, 2, 3):
         st = S()
         a_ = st.sub(b"a")
@@ -568,6 +637,15 @@ def c07(tier, rng):
 def c08(tier, rng):
     import itertools
     out = []
+    for q in (1, 2):
+        st = S(connect_opts="tam=10")
+        st.deliver(M.publish(b"t", b"x", q, 9, ps=[(2, 0)]))
+        st.deliver(M.publish(b"named/topic", b"first", q, 10, ps=[(35, 5)])), st.deliver(M.publish(b"", b"second", q, 11, ps=[(35, 5)]))
+        st.deliver(M.publish(b"t", b"y", q, 12, ps=[(2, 4294967295), (1, 1), (3, b"text/plain"), (8, b"r/t"), (9, b"cd")]))
+        if q == 2:
+            for i_ in (9, 10, 11, 12):
+                st.deliver(M.pubrel(i_))
+        out.append(case("boundary-props-q%d" % q, st.script(), ["boundary-props"]))
     alpha = []
     for q in (0, 1, 2):
         for sid in (None, 1, 2, 77):
@@ -637,6 +715,18 @@ def c08(tier, rng):
 def c09(tier, rng):
     import itertools
     out = []
+    for budget in (0, 2):
+        st = S(connect_opts="sei=1000")
+        a = st.sub(b"a")
+        st.poll(a), st.deliver(M.suback(1)), st.poll(a), st.ev("tostream %d" % a)
+        st.deliver(M.publish(b"a", b"m1", 2, 5, ps=[(11, 1)]))
+        st.ev("werr %d" % budget)
+        st.deliver(M.publish(b"a", b"m2", 2, 6, ps=[(11, 1)]))          # its PUBREC cannot be written
+        st.ev("markdisc 5"), st.ev("reconnect"), st.ev("connect sei=1000"), st.deliver(M.connack(1)), st.ev("run")
+        st.deliver(M.publish(b"a", b"m2", 2, 6, dup=1, ps=[(11, 1)])), st.deliver(M.pubrel(5)), st.deliver(M.pubrel(6))
+        for _ in range(4):
+            st.ev("pollstream %d" % a)
+        out.append(case("pubrec-fails-then-resume-%d" % budget, st.script(), ["reconnect", "ackfault"]))
     alpha = [("p", 5, 0), ("p", 5, 1), ("p", 6, 0), ("r", 5), ("r", 6), ("q1", 5)]
     depth = 4 if tier == "quick" else 5
     n = 0
@@ -725,6 +815,43 @@ def c09(tier, rng):
            "frees a slot, QoS 0 and other operations unlimited), then random walks with failing reasons.")
 def c10(tier, rng):
     out = []
+    for R in (1, 2, 3):
+        s = S(connack_props=[(33, R)])
+        first = [s.pub(q=1 + k % 2, payload=b"a%d" % k) for k in range(R)]
+        for i_ in first:
+            s.poll(i_)
+        s.ev("run")                                   # the application dropped the run() future and called run() again
+        more = [s.pub(q=1, payload=b"b%d" % k) for k in range(2)]
+        for i_ in more:
+            s.poll(i_)
+        for i_ in more:
+            s.poll(i_)
+        s.deliver(M.puback(s.ops[first[0]]["pid"])), s.poll(first[0])
+        s.ev("run")
+        last = [s.pub(q=1, payload=b"c%d" % k) for k in range(2)]
+        for i_ in last:
+            s.poll(i_)
+        for i_ in last:
+            s.poll(i_)
+        out.append(case("run-again-R%d" % R, s.script(), ["run-again", "R%d" % R]))
+    for R in (2, 3):
+        for other in ("puback", "pubcomp", "pubrecfail"):
+            s = S(connack_props=[(33, R)])
+            x = s.pub(q=2, payload=b"X")
+            y = s.pub(q=1 if other == "puback" else 2, payload=b"Y")
+            s.poll(x), s.poll(y)
+            px, py = s.ops[x]["pid"], s.ops[y]["pid"]
+            if other == "pubcomp":
+                s.deliver(M.pubrec(py)), s.poll(y)
+            tailpk = {"puback": M.puback(py), "pubcomp": M.pubcomp(py), "pubrecfail": M.pubrec(py, 145)}[other]
+            s.deliver(M.pubrec(px) + tailpk)          # one read: PUBREC(X) ok, then Y completes - X's future not polled in between
+            more = [s.pub(q=1, payload=b"n%d" % k) for k in range(R)]
+            for i_ in more:
+                s.poll(i_)
+            for i_ in more:
+                s.poll(i_)
+            s.poll(x), s.poll(y)
+            out.append(case("pubrec-then-%s-R%d" % (other, R), s.script(), ["between-phases", "R%d" % R]))
     for R in (1, 2):
         for q in (1, 2):
             for between in ("ping", "pub0", "refused"):
@@ -849,6 +976,33 @@ def c10(tier, rng):
            "with windows of outstanding operations across the wrap-around), identifiers read off the wire.")
 def c11(tier, rng):
     out = []
+    st = S()
+    st.ev("clone 0 1"), st.ev("clone 1 2")
+    hs = [0, 1, 0, 2, 1, 2, 0]
+    subs_ = [st.sub(b"s%d" % k, handle=h) for k, h in enumerate(hs)]
+    for i_ in subs_:
+        st.poll(i_)
+    pubs_ = [st.pub(q=1, handle=h) for h in (2, 0, 1)]
+    for i_ in pubs_:
+        st.poll(i_)
+    out.append(case("clones-subscribe", st.script(), ["clones"]))
+    for n_before in (1, 3):
+        st = S()
+        st.ev("clone 0 1")
+        warm = [st.pub(q=1, payload=b"w%d" % k) for k in range(n_before)]
+        for i_ in warm:
+            st.poll(i_), st.deliver(M.puback(st.ops[i_]["pid"])), st.poll(i_)
+        st.ev("hold")
+        d = st.disc(handle=0)
+        st.poll(d)
+        late = st.pub(q=1, payload=b"queued behind DISCONNECT", handle=1)
+        st.poll(late)
+        st.ev("release"), st.poll(d)
+        st.ev("reconnect"), st.ev("connect"), st.deliver(M.connack()), st.ev("run")
+        again = [st.pub(q=1, payload=b"n%d" % k, handle=1) for k in range(n_before + 3)] + [st.sub(b"z", handle=1), st.unsub(b"z", handle=1)]
+        for i_ in again:
+            st.poll(i_)
+        out.append(case("queued-behind-disconnect-%d" % n_before, st.script(), ["clones", "reconnect"]))
     s = S()
     s.ev("spin 65534 0 pub1 1")
     s.ev("spin 5 70000 sub 1")
@@ -1016,6 +1170,29 @@ def c12_extra():
             nxt = s.pub(q=1, payload=b"n")
             s.poll(nxt), s.poll(nxt)
             out.append(case("oversized-at-quota-R%d-q%d" % (R, q), s.script(), ["oversized", "quota"]))
+    for Mx in (12, 40):
+        s = S(connack_props=[(39, Mx)], via_auth=True)
+        fits = s.pub(q=0, topic=b"t", payload=b"x" * (Mx - 6))
+        big0, big1 = s.pub(q=0, topic=b"t", payload=b"x" * (Mx - 5)), s.pub(q=1, topic=b"t", payload=b"x" * Mx)
+        sb, us, pg = s.sub(b"a/very/long/topic/filter/that/does/not/fit/into/forty/bytes"), s.unsub(b"a/very/long/topic/filter/that/does/not/fit/into/forty"), s.ping()
+        for i in (fits, big0, big1, sb, us, pg):
+            s.poll(i)
+        for i in (fits, big0, big1, sb, us, pg):
+            s.poll(i)
+        out.append(case("limit-via-auth-%d" % Mx, s.script(), ["via-auth"]))
+    for R in (1, 2):
+        s = S(connack_props=[(33, R), (39, 20)])
+        fill = [s.pub(q=1, topic=b"t", payload=b"f%d" % k) for k in range(R)]
+        for i in fill:
+            s.poll(i)
+        big = s.pub(q=1, topic=b"t", payload=b"B" * 40)
+        s.poll(big), s.poll(big)
+        nxt = s.pub(q=1, topic=b"t", payload=b"n")
+        s.poll(nxt), s.poll(nxt)                       # the quota is still used up: refused, nothing written
+        s.deliver(M.puback(s.ops[fill[0]]["pid"])), s.poll(fill[0])
+        n2, n3 = s.pub(q=1, topic=b"t", payload=b"o"), s.pub(q=1, topic=b"t", payload=b"p")
+        s.poll(n2), s.poll(n3), s.poll(n2), s.poll(n3)  # exactly one slot came back
+        out.append(case("oversize-keeps-quota-R%d" % R, s.script(), ["oversized", "quota"]))
     return out
 
 
@@ -1045,6 +1222,38 @@ def session_states():
            "outstanding, streams open, mid-QoS 2}; every CONNACK reason, AUTH, EOF for connect().")
 def c13(tier, rng):
     out = []
+    for k in (0, 1, 5):
+        out.append(case("connect-zerowrite-%d" % k, "werr0 %d ; connect ; deliver %s" % (k, hx(M.connack())), ["connect", "zerowrite"]))
+    for what in ("ping", "pub1", "ack1", "ack2", "disc"):
+        for k in (0, 1, 3):
+            if what == "ping" and k >= 2:
+                continue                      # PINGREQ has two bytes
+            st = S()
+            st.ev("werr0 %d" % k)
+            if what == "ping":
+                g = st.ping()
+                st.poll(g), st.poll(g)
+            elif what == "pub1":
+                g = st.pub(q=1)
+                st.poll(g), st.poll(g)
+            elif what == "disc":
+                g = st.disc()
+                st.poll(g), st.poll(g)
+            else:
+                st.deliver(M.publish(b"t", b"x", 1 if what == "ack1" else 2, 9))
+            out.append(case("werr-zero-%s-%d" % (what, k), st.script(), ["werr", "zerowrite"]))
+    for keep in ("rsp", "stream", "both"):
+        st = S()
+        st.ev("clone 0 1")
+        a, b = st.sub(b"a"), st.sub(b"b", handle=1)
+        st.poll(a), st.poll(b), st.deliver(M.suback(1)), st.deliver(M.suback(2)), st.poll(a), st.poll(b)
+        if keep in ("stream", "both"):
+            st.ev("tostream %d" % a)
+        if keep == "stream":
+            st.ev("dropop %d" % b)
+        st.deliver(M.publish(b"a", b"buffered", 0, None, ps=[(11, 1)]))
+        st.ev("drophandle 1"), st.ev("drophandle 0")
+        out.append(case("handles-with-%s-alive" % keep, st.script(), ["handleclosed", "streams"]))
     long_rs = b"r" * 150
     for cut in (1, 2, 3):
         ca = M.connack(0, 0, [(31, long_rs)])
@@ -1267,6 +1476,29 @@ def k2_case():
            "acknowledgement delivered afterwards; dropped streams; then random walks with drops.")
 def c15(tier, rng):
     out = [k2_case()]
+    for kind in ("disc", "pub0", "pub1", "pub2", "sub", "unsub", "ping"):
+        st = S()
+        other = st.pub(q=1, payload=b"other caller")
+        st.poll(other)
+        x = {"disc": st.disc, "pub0": lambda: st.pub(q=0), "pub1": lambda: st.pub(q=1), "pub2": lambda: st.pub(q=2), "sub": st.sub,
+             "unsub": st.unsub, "ping": st.ping}[kind]()
+        st.ev("dropop %d" % x)
+        del st.ops[x]
+        g = st.ping()
+        st.poll(g), st.deliver(M.pingresp()), st.poll(g)
+        st.deliver(M.puback(1)), st.poll(other)
+        out.append(case("never-polled-%s" % kind, st.script(), ["unpolled", kind]))
+    # a dropped stream: what is sent for it is acknowledged like anything else, and its identifiers serve others afterwards
+    st = S()
+    a, b = st.sub(b"a"), st.sub(b"b")
+    st.poll(a), st.poll(b), st.deliver(M.suback(1)), st.deliver(M.suback(2)), st.poll(a), st.poll(b)
+    st.ev("tostream %d" % a), st.ev("tostream %d" % b), st.ev("dropstream %d" % a)
+    st.deliver(M.publish(b"a", b"to the dead stream", 2, 7, ps=[(11, 1)])), st.deliver(M.pubrel(7))
+    st.deliver(M.publish(b"a", b"again", 1, 8, ps=[(11, 1)]))
+    st.deliver(M.publish(b"b", b"same id, live stream", 2, 7, ps=[(11, 2)])), st.deliver(M.pubrel(7))
+    for _ in range(3):
+        st.ev("pollstream %d" % b)
+    out.append(case("dead-stream-qos2-then-reuse", st.script(), ["dropped-stream"]))
     # the abandoned QoS 2 exchange of K2 with a small Receive Maximum: whatever happens to its slot, the server's limit
     # on unfinished exchanges is respected
     for R in (1, 2):
@@ -1384,6 +1616,17 @@ def c15(tier, rng):
            "quiescence a sweep must change nothing.")
 def c16(tier, rng):
     out = []
+    for where in ("idle", "mid-packet", "between"):
+        st = S()
+        pg = st.ping()
+        st.poll(pg)
+        if where == "mid-packet":
+            st.deliver(M.publish(b"t", b"abc", 1, 9)[:4])
+        if where == "between":
+            st.deliver(M.puback(77))
+        st.ev("rintr")
+        st.deliver(M.pingresp()), st.poll(pg), st.ev("sweep"), st.poll(pg)
+        out.append(case("interrupted-read-%s" % where, st.script(), ["rintr"]))
     for L, piece in ((209, 1), (209, 3), (209, 6), (2000, 7), (700, 2)):
         st = S()
         a = st.sub(b"a")
@@ -1587,4 +1830,28 @@ def c17(tier, rng):
             s.poll(a), s.poll(b)
             s.deliver(M.puback(s.ops[a]["pid"])), s.deliver(M.pubcomp(s.ops[b]["pid"])), s.poll(a), s.poll(b)
             out.append(case("%s%s" % (label, "-authfirst" if first_auth else ""), s.script(), ["via-auth", "expiry-change"]))
+    for q in (1, 2):
+        for ret in (0, 1):
+            s = S(connect_opts="sei=1000")
+            a = s.pub(q=q, payload=b"kept", extra="ret=%d" % ret)
+            b2 = s.pub(q=2, payload=b"B", extra="ret=%d" % (1 - ret))
+            s.poll(a), s.poll(b2)
+            s.ev("markdisc 10"), resume(s, 1000)
+            s.poll(a), s.poll(b2)
+            out.append(case("retained-q%d-ret%d" % (q, ret), s.script(), ["retain"]))
+    for how in ("userdisc", "srvdisc", "eof"):
+        s = S(connect_opts="sei=1000")
+        a, b2 = s.pub(q=1, payload=b"A"), s.pub(q=2, payload=b"B")
+        s.poll(a), s.poll(b2), s.deliver(M.pubrec(s.ops[b2]["pid"])), s.poll(b2)
+        if how == "userdisc":
+            d = s.disc()
+            s.poll(d), s.poll(d)
+        elif how == "srvdisc":
+            s.deliver(M.disconnect(139))
+        else:
+            s.ev("eof")
+        s.ev("markdisc 10"), resume(s, 1000)
+        s.poll(a), s.poll(b2)
+        s.deliver(M.puback(s.ops[a]["pid"])), s.deliver(M.pubcomp(s.ops[b2]["pid"])), s.poll(a), s.poll(b2)
+        out.append(case("resume-after-%s" % how, s.script(), ["ended-by", how]))
     return out
